@@ -64,6 +64,10 @@ pub(crate) fn bbox_write_z_range_to<PointType: HasZ, W: Write>(
     Ok(())
 }
 
+fn invalid_data(msg: &'static str) -> std::io::Error {
+    std::io::Error::new(std::io::ErrorKind::InvalidData, msg)
+}
+
 pub(crate) fn read_xy_in_vec_of<PointType, T>(
     source: &mut T,
     num_points: i32,
@@ -72,7 +76,9 @@ where
     PointType: HasMutXY + Default,
     T: Read,
 {
-    let mut points = Vec::<PointType>::with_capacity(num_points as usize);
+    let num_points =
+        usize::try_from(num_points).map_err(|_| invalid_data("negative number of points"))?;
+    let mut points = Vec::<PointType>::with_capacity(num_points);
     for _ in 0..num_points {
         let mut p = PointType::default();
         *p.x_mut() = source.read_f64::<LittleEndian>()?;
@@ -106,7 +112,9 @@ pub(crate) fn read_parts<T: Read>(
     source: &mut T,
     num_parts: i32,
 ) -> Result<Vec<i32>, std::io::Error> {
-    let mut parts = Vec::<i32>::with_capacity(num_parts as usize);
+    let num_parts =
+        usize::try_from(num_parts).map_err(|_| invalid_data("negative number of parts"))?;
+    let mut parts = Vec::<i32>::with_capacity(num_parts);
     for _ in 0..num_parts {
         parts.push(source.read_i32::<LittleEndian>()?);
     }
@@ -201,8 +209,19 @@ impl<'a, PointType: Default + HasMutXY, R: Read> MultiPartShapeReader<'a, PointT
         bbox_read_xy_from(&mut bbox, source)?;
         let num_parts = source.read_i32::<LittleEndian>()?;
         let num_points = source.read_i32::<LittleEndian>()?;
+        if num_points < 0 {
+            return Err(invalid_data("negative number of points"));
+        }
         let parts_array = read_parts(source, num_parts)?;
-        let parts = Vec::<Vec<PointType>>::with_capacity(num_parts as usize);
+        // Each part starts where the previous one ends, and they all are within the points
+        let mut previous = 0;
+        for start_of_part_index in parts_array.iter().copied() {
+            if start_of_part_index < previous || start_of_part_index > num_points {
+                return Err(invalid_data("invalid parts array"));
+            }
+            previous = start_of_part_index;
+        }
+        let parts = Vec::<Vec<PointType>>::with_capacity(parts_array.len());
         Ok(Self {
             num_points,
             num_parts,
